@@ -30,6 +30,9 @@ def handle (op : String) (args : List String) : Option String :=
       some (match ICal.parseRfc s.toList with
         | .ok vs => "ok " ++ toString vs.length ++ " " ++ ";".intercalate (vs.map showVtz)
         | .error e => "err " ++ e.name)
+  | "ical.rrulecalls", [h] => do
+      let s ← parseHexString? h
+      some ("ok " ++ ";".intercalate ((ICal.rruleCalls s.toList).map (fun g => Py.showList hexL g)))
   | "ical.get", [h, t] => do
       let s ← parseHexString? h
       let tz : Option (List Char) ← (if t == "-" then some none else (parseHexString? t).map (fun x => some x.toList))
